@@ -265,17 +265,33 @@ class Machine:
         res = []
         e0 = dict(env)
         e0["__ctx__"] = ctx
-        for s2, e2, txt in go(len(parts) - 1, stk, e0, b""):
-            res.append((s2, e2, txt))
+        # All strings are computed first (whether their order is documented is only known at the end), but what computing the
+        # k-th one costs in diagnostics, and a hard error met on the way to it, are charged only when the consumer asks for the
+        # k-th one: the engine computes them on demand, and a consumer that stops early (?(E), an if condition, ||) never
+        # gets to see the rest.
+        base = self.diag
+        pending = None
+        try:
+            for s2, e2, txt in go(len(parts) - 1, stk, e0, b""):
+                res.append((s2, e2, txt, self.diag))
+        except HardError as ex:
+            pending = (ex, self.diag)
+        final = self.diag
+        self.diag = base
         # The strings one input stack gives rise to are numbered 0,1,2,... in the order
         # yielded; if that order is not documented, neither are the numbers.
         if ctx.unordered and len(res) > 1:
             outer.unordered = True
-        for pos, (s2, e2, txt) in enumerate(res):
+        for pos, (s2, e2, txt, dg) in enumerate(res):
             e3 = dict(e2)
             e3["__ctx__"] = outer
             e3["__act__"] = act
+            self.diag = max(self.diag, dg)
             yield s2 + (S(txt, None if (ctx.unordered and len(res) > 1) else pos),), e3
+        # the consumer asked for more than there is: everything has been computed by now
+        self.diag = max(self.diag, final)
+        if pending is not None:
+            raise pending[0]
 
     def ev_read(self, n, stk, env):
         if n[1] not in env:
